@@ -28,7 +28,7 @@ ASSUMPTIONS = [
     "only paddings produced by the encrypter are decrypted (stripping of invalid PKCS#7 is unspecified)",
     "data of length 0 for the adapter is outside the stated range (lengths 1..n)",
 ]
-TIMEOUT = {"quick": 1800, "thorough": 4 * 3600}
+TIMEOUT = {"quick": 900, "thorough": 4 * 3600}
 
 NIST_KEY = bytes.fromhex("2b7e151628aed2a6abf7158809cf4f3c")
 NIST_PT = bytes.fromhex(
